@@ -245,6 +245,9 @@ func (e *Engine) Exec(cmd ...string) *Failure {
 			if d := model.CompareKey(k, want, obs[k]); d != nil {
 				d.Extra = fmt.Sprintf("db %d", db)
 				devs = append(devs, findings.Deviation{Kind: "state", Diff: d})
+			} else if want.DeadlineAlt != 0 {
+				// two deadlines were admissible (see model.Entry.DeadlineAlt): the model follows the server
+				e.M.Adopt(db, k, obs[k])
 			} else if want.Type != obs[k].Type {
 				// An emptied collection may linger as an empty key or vanish (not asserted): the model
 				// follows the server so that later existence-dependent commands are judged consistently.
